@@ -30,6 +30,19 @@ fn normalize_cdn_path(path: &str) -> &str {
     path.trim_end_matches('/')
 }
 
+/// Split a hex key into the two directory levels of the CDN layout
+/// (`ab/cd/abcd...`).
+///
+/// Total for every string: a key too short to have both levels (fewer than
+/// two bytes) yields a short or empty level instead of a slicing panic; such
+/// a key names nothing on a CDN and the request simply fails.
+fn cdn_dir_levels(hex_key: &str) -> (&str, &str) {
+    (
+        hex_key.get(..2).unwrap_or(hex_key),
+        hex_key.get(2..4).unwrap_or(""),
+    )
+}
+
 /// Parse the `Retry-After` header from an HTTP response.
 ///
 /// Agent.exe reads this header on 429 responses and waits the specified duration.
@@ -151,8 +164,8 @@ impl CdnClient {
             endpoint.host,
             base_path,
             content_type,
-            &hex_key[..2],
-            &hex_key[2..4],
+            cdn_dir_levels(&hex_key).0,
+            cdn_dir_levels(&hex_key).1,
             hex_key
         )
     }
@@ -173,8 +186,8 @@ impl CdnClient {
             "cdn/{}/{}/{}/{}/{}",
             normalize_cdn_path(&endpoint.path),
             content_type,
-            &hex_key[..2],
-            &hex_key[2..4],
+            cdn_dir_levels(&hex_key).0,
+            cdn_dir_levels(&hex_key).1,
             hex_key
         );
 
@@ -380,8 +393,8 @@ impl CdnClient {
         let cache_key = format!(
             "cdn/{}/data/{}/{}/{}.index",
             normalize_cdn_path(&endpoint.path),
-            &archive_key[..2],
-            &archive_key[2..4],
+            cdn_dir_levels(archive_key).0,
+            cdn_dir_levels(archive_key).1,
             archive_key
         );
 
@@ -400,8 +413,8 @@ impl CdnClient {
             scheme,
             endpoint.host,
             base_path,
-            &archive_key[..2],
-            &archive_key[2..4],
+            cdn_dir_levels(archive_key).0,
+            cdn_dir_levels(archive_key).1,
             archive_key
         );
 
@@ -461,8 +474,8 @@ impl CdnClient {
             scheme,
             endpoint.host,
             base_path,
-            &archive_key[..2],
-            &archive_key[2..4],
+            cdn_dir_levels(archive_key).0,
+            cdn_dir_levels(archive_key).1,
             archive_key
         );
 
